@@ -85,6 +85,10 @@ class ExprMixin:
                 return v
             if sort == BOOL:
                 return vbool(self.truthy(v))
+            if sort == OPAQUE and isinstance(v.sort, RefSort):
+                # an object passed where an unmodelled ("Any") value is expected: an injection per class
+                inj = z3.Function("as_opaque_" + v.sort.cls, v.sort.z, OPAQUE.z)
+                return Val(OPAQUE, (inj(v.z),))
         raise Unsupported(node, f"cannot coerce {getattr(v, 'sort', v)} to {sort}")
 
     def is_none(self, v) -> Any:
@@ -228,7 +232,7 @@ class ExprMixin:
         if n in w.specfns:
             return [(st, SpecFnRef(n))]
         if n in ("forall", "exists", "implies", "iff", "old", "ite", "distinct",
-                 "seq_eq", "set_eq", "subset", "fieldof", "setof", "unchanged", "keys", "keyidx", "store", "append", "cat"):
+                 "seq_eq", "same", "set_eq", "subset", "fieldof", "setof", "unchanged", "keys", "keyidx", "store", "append", "cat"):
             return [(st, SpecFnRef(n))]
         if n in w.str_consts:
             c = w.str_consts[n]
